@@ -279,6 +279,7 @@ def o12_10_disk_create_file(mir, tier):
             res.cases['%s: %s' % (fn.path[-40:], [n for n, _ in st['set']])] = 1
             for label, post, m in ex.check_posts(posts, pc):
                 res.violations.append({'label': label, 'file_system': fn.path[-60:], 'append_requested': mval(m, app), 'replay': ['disk_log_reuse']})
+                res.violations.append({'label': label, 'file_system': fn.path[-60:], 'append_requested': mval(m, app), 'replay': ['disk_create_file_modes']})
         ex.top(fn, [{'abstract': True, '__ty': 'fs'}, {'path': 'file'}, app], {'$state': {'set': [], 'opened': []}}, [], k)
         res.absorb(ex)
     res.wall_s = time.time() - t0
@@ -289,6 +290,9 @@ def o12_10_disk_create_file(mir, tier):
 def o12_10_confirm(v, out):
     """Native: a database on the disk-backed TmpFileSystem with log reuse: write, reopen, write, reopen; every acknowledged write is read back."""
     if out.get('_rc') != 0: return (True, 'native run failed / panicked: %s' % out.get('_stderr', '')[-300:])
+    if v['replay'][0] == 'disk_create_file_modes':
+        return (out.get('recreated_ok') != 'true' or out.get('appended_ok') != 'true', 'native (disk file system): a 100-byte file re-created without the append flag and written with 10 bytes holds %s bytes (as written: %s); a 10-byte file opened for appending and written with 5 bytes holds %s bytes (old bytes then new bytes: %s)'
+                % (out.get('recreated_len'), out.get('recreated_ok'), out.get('appended_len'), out.get('appended_ok')))
     return (out.get('wrong', '1') != '0', 'native (disk file system, log reuse on): after write / reopen / write / reopen %s of %s acknowledged keys read something else (first: %s)' % (out.get('wrong'), out.get('keys'), out.get('first_wrong')))
 
 
